@@ -16,6 +16,7 @@ Structural clauses decided (cardillo/discrete/{rigid_body,point_mass,frame}.py):
 from __future__ import annotations
 
 import ast
+import re
 
 from ..core import AnalysisError, dotted, norm_src
 from .. import deriv, protocol
@@ -53,6 +54,84 @@ def _trivial(fn):
     return True
 
 
+def velocity_derivatives_exact(ctx, rule="C04.R10"):
+    """K19 on RigidBody's point kinematics: v_P, a_P, kappa_P are polynomials in cross products of u[:3], u[3:], u_dot[3:], B_r_CP behind a
+    common rotation A_IB(t, q) that does not depend on u.  Their stated u-derivatives (J_P, a_P_u, kappa_P_u) are 3 x nu buffers with a
+    translational block [:, :3] and a rotational block [:, 3:].  For each block the matrix expression applied to a direction d must be the
+    directional derivative of the primal in that slice of u - as functions of the vectors, with exact coefficients, modulo vector identities
+    (BAC-CAB etc.).  K5 / K10 see only which factors occur: the product-rule term (omega . r) I lost in seed C04-g has the same factors as
+    the terms that were kept."""
+    from .. import brackets as B
+    rep = ctx.rep
+    rel = FILES["RigidBody"]
+    cls = ctx.repo.get(rel, "RigidBody")
+    methods = {f.name: f for f in cls.body if isinstance(f, ast.FunctionDef)}
+    SL = {"u[:3]": "v", "u[3:]": "w", "u_dot[:3]": "vd", "u_dot[3:]": "wd"}
+
+    def atom(e):
+        if isinstance(e, ast.Subscript) and re.sub(r"\s", "", norm_src(e)) in SL:
+            return SL[re.sub(r"\s", "", norm_src(e))]
+        if isinstance(e, ast.Name) and e.id == "B_r_CP":
+            return "r"
+        return None
+
+    def rot(e):
+        return isinstance(e, ast.Call) and isinstance(e.func, ast.Attribute) and e.func.attr == "A_IB" and norm_src(e.func.value) == "self"
+
+    def resolve(name, depth=0):
+        """follow `return self.<other>(...)` forwarding"""
+        fn = methods.get(name)
+        if fn is None or depth > 3:
+            return fn
+        body = [st for st in fn.body if not (isinstance(st, ast.Expr) and isinstance(st.value, ast.Constant))]
+        if len(body) == 1 and isinstance(body[0], ast.Return) and isinstance(body[0].value, ast.Call) and isinstance(body[0].value.func, ast.Attribute) \
+                and norm_src(body[0].value.func.value) == "self" and body[0].value.func.attr in methods:
+            return resolve(body[0].value.func.attr, depth + 1)
+        return fn
+    n = 0
+    for prim, der, wrt in (("v_P", "J_P", ("v", "w")), ("a_P", "a_P_u", ("v", "w")), ("kappa_P", "kappa_P_u", ("v", "w")), ("a_P", "J_P", ("vd", "wd"))):
+        fp, fd = methods.get(prim), resolve(der)
+        C = f"{rel}:RigidBody.{der}"
+        if fp is None or fd is None:
+            rep.ok(rule, C, f"{prim} / {der} not found (no verdict)", verdict="unknown", trivial=True)
+            continue
+        rets = [r for r in ast.walk(fp) if isinstance(r, ast.Return) and r.value is not None]
+        pv = B.Bracketer(fp, atom, rot).ev(rets[0].value) if len(rets) == 1 else None
+        if pv is None or pv[0] != "v":
+            rep.ok(rule, C, f"{prim} is not a polynomial in cross products of the velocity slices (no verdict)", verdict="unknown", trivial=True)
+            continue
+        P = B.sdot(B.vatom("_c"), pv[1])
+        br = B.Bracketer(fd, atom, rot)
+        blocks = {}
+        for st in ast.walk(fd):
+            if isinstance(st, ast.Assign) and len(st.targets) == 1 and isinstance(st.targets[0], ast.Subscript) and isinstance(st.targets[0].value, ast.Name):
+                k = re.sub(r"\s", "", norm_src(st.targets[0].slice)).strip("()")
+                if k in (":,:3", ":,3:"):
+                    blocks[k] = st
+        for a, k in zip(wrt, (":,:3", ":,3:")):
+            want = B.ddt(P, {a: B.vatom("_d")})
+            st = blocks.get(k)
+            if st is None:
+                got = {}
+            else:
+                g = br.apply(st.value, B.vatom("_d"))
+                if g is None:
+                    rep.ok(rule, C, f"block [{k}] `{norm_src(st.value)[:50]}` is not a skew / outer / identity expression (no verdict)", verdict="unknown", trivial=True)
+                    continue
+                got = B.sdot(B.vatom("_c"), g)
+            same, pt = B.same_function(want, got)
+            if same:
+                n += 1
+                rep.ok(rule, C, f"block [{k}] of {der} is the derivative of {prim} with respect to {a} ({len(want)} bracket monomials)")
+            else:
+                D = B.sadd(got, want, -1)
+                rep.bad(rule, C, st if st is not None else fd.name, f"block [{k}] of {der} is not the derivative of {prim} with respect to the slice `{[x for x, y in SL.items() if y == a][0]}`: "
+                        f"c.(block d) - D_d(c.{prim}) = {B.show(D)[:220]} (c, d arbitrary vectors; w = u[3:], r = B_r_CP): a term of the product rule is missing or has the wrong factor",
+                        f"{rel}:{(st or fd).lineno}")
+    if n < 6:
+        rep.ok(rule, f"{rel}:RigidBody", f"only {n} blocks decided", verdict="unknown", trivial=True)
+
+
 def run(ctx):
     rep = ctx.rep
     rep.rule("C04.R7", "dependence monotonicity (K13) over every primal/derivative pair of K5: a stated derivative reads no datum its primal does not read", 30)
@@ -77,6 +156,8 @@ def run(ctx):
     rep.rule("C04.R9", "memoised kinematics of the discrete bodies return fresh arrays; nobody in cardillo/discrete modifies a memoised result in place (K18)", 4)
     from .. import cachepurity as _cp
     _cp.report(ctx, "C04.R9", ("cardillo/discrete/",), floor_note=False)
+    rep.rule("C04.R10", "RigidBody: the velocity derivatives J_P, a_P_u, kappa_P_u are the exact derivatives of v_P, a_P, kappa_P block by block (K19: bracket normal form, exact coefficients, modulo vector identities)", 6)
+    velocity_derivatives_exact(ctx)
     rep.rule("C04.R1", "chain-rule coverage (K5) of the discrete bodies", 15)
     rep.rule("C04.R2", "Frame time chain", 4)
     rep.rule("C04.R3", "offset dependence of the point kinematics family", 10)
@@ -247,4 +328,15 @@ MUTANTS += [
          edits=[(RBF_, "        J_P = np.zeros((3, self.nu), dtype=q.dtype)\n        J_P[:, :3] = np.eye(3)\n", "        J_P = self._J_P_buffer\n"),
                 (RBF_, "        self.constant_mass_matrix = True\n", "        self.constant_mass_matrix = True\n        self._J_P_buffer = np.zeros((3, self.nu), dtype=float)\n        self._J_P_buffer[:, :3] = np.eye(3, dtype=float)\n")],
          expect="C04.R9"),
+]
+
+MUTANTS += [
+    dict(id="c04-r10-seed", canary=True, what="[seeded by sub-agent] RigidBody.kappa_P_u in 'closed form' with outer products, the product-rule term (omega . r) I lost; a_P_u forwards to it", file='cardillo/discrete/rigid_body.py',
+         edits=[('cardillo/discrete/rigid_body.py', '        a_P_u = np.zeros((3, self.nu), dtype=float)\n        a_P_u[:, 3:] = -self.A_IB(t, q) @ (\n            ax2skew(cross3(u[3:], B_r_CP)) + ax2skew(u[3:]) @ ax2skew(B_r_CP)\n        )\n        return a_P_u\n', '        return self.kappa_P_u(t, q, u, xi=xi, B_r_CP=B_r_CP)\n'), ('cardillo/discrete/rigid_body.py', '        kappa_P_u = np.zeros((3, self.nu))\n        kappa_P_u[:, 3:] = -self.A_IB(t, q) @ (\n            ax2skew(cross3(u[3:], B_r_CP)) + ax2skew(u[3:]) @ ax2skew(B_r_CP)\n        )\n        return kappa_P_u\n', '        omega = u[3:]\n        kappa_P_u = np.zeros((3, self.nu))\n        kappa_P_u[:, 3:] = self.A_IB(t, q) @ (\n            np.outer(omega, B_r_CP) - 2.0 * np.outer(B_r_CP, omega)\n        )\n        return kappa_P_u\n')], expect="C04.R10"),
+    dict(id="c04-r10-jp", what="RigidBody.J_P rotational block without the minus sign", file='cardillo/discrete/rigid_body.py',
+         old="        J_P[:, 3:] = -self.A_IB(t, q) @ ax2skew(B_r_CP)\n", new="        J_P[:, 3:] = self.A_IB(t, q) @ ax2skew(B_r_CP)\n", expect="C04.R10"),
+]
+NEUTRAL += [
+    dict(id="c04-n-r10", canary=True, what="RigidBody.kappa_P_u in closed form with all three terms; a_P_u forwards to it", file='cardillo/discrete/rigid_body.py',
+         edits=[('cardillo/discrete/rigid_body.py', '        a_P_u = np.zeros((3, self.nu), dtype=float)\n        a_P_u[:, 3:] = -self.A_IB(t, q) @ (\n            ax2skew(cross3(u[3:], B_r_CP)) + ax2skew(u[3:]) @ ax2skew(B_r_CP)\n        )\n        return a_P_u\n', '        return self.kappa_P_u(t, q, u, xi=xi, B_r_CP=B_r_CP)\n'), ('cardillo/discrete/rigid_body.py', '        kappa_P_u = np.zeros((3, self.nu))\n        kappa_P_u[:, 3:] = -self.A_IB(t, q) @ (\n            ax2skew(cross3(u[3:], B_r_CP)) + ax2skew(u[3:]) @ ax2skew(B_r_CP)\n        )\n        return kappa_P_u\n', '        omega = u[3:]\n        kappa_P_u = np.zeros((3, self.nu))\n        kappa_P_u[:, 3:] = self.A_IB(t, q) @ (\n            (omega @ B_r_CP) * np.eye(3) + np.outer(omega, B_r_CP) - 2.0 * np.outer(B_r_CP, omega)\n        )\n        return kappa_P_u\n')]),
 ]
